@@ -8,9 +8,13 @@ start, checkpoint ticker, the store's pending snapshot, the operators' in-flight
 every theorem quantifies over all histories (registrations, deregistrations, heartbeat expiries, deployment results,
 ticks, acknowledgements and barriers in any order, stale and duplicate messages included).
 
+`Reachable` only contains schedules in which a checkpoint ticker callback runs as ONE step (`.tick`). The code does not
+enforce that (the callback is not a task of the job's queue: finding D57, `tick_interleaving_counterexample`, stated
+over `ReachableAny`, which also contains the callback's three pieces `.tickA/.tickB/.tickC` interleaved with tasks).
+
 "New checkpoints complete again" is a liveness claim. It is proved as safety (`no_stale_inflight`,
 `pending_belongs_to_assembly`, `record_within_sources`: nothing of a previous deployment is left that could block a
-checkpoint) plus bounded progress (`checkpoint_progress`: from such a state the tick and the acknowledgements of the
+checkpoint) plus bounded progress (`checkpoint_progress_partial`; the unrestricted statement is false, D56: from such a state the tick and the acknowledgements of the
 current assembly publish a new checkpoint). Fair delivery of those messages is an assumption, not a theorem.
 -/
 namespace Rxn.C15
@@ -61,15 +65,31 @@ theorem redeploy_from_latest {s : St} (hr : Reachable s) (a : Act) (dep : Dep)
     dep.ck = s.store.current ∧ dep.ck = (step s a).1.store.current ∧ (step s a).1.startCk = dep.ck :=
   step_dep_ck (reachable_inv hr) a dep hd
 
-/-- while a deployment is in flight the checkpoint it was started with stays the newest one -/
-theorem start_uses_latest {s : St} (hr : Reachable s) (h : s.status = .starting) :
-    s.startCk = s.store.current ∧ s.store.pending = none :=
-  ⟨((reachable_inv hr).startClean h).2, ((reachable_inv hr).startClean h).1⟩
+/-- while a deployment is in flight the store has no pending snapshot (`RegisterSourceSplitter` abandoned it and the
+ticker is stopped) -/
+theorem start_uses_latest {s : St} (hr : Reachable s) (h : s.status = .starting) : s.store.pending = none :=
+  (reachable_inv hr).startClean h
 
-/-- the current checkpoint id never decreases, and a pending snapshot has a larger id than every published one -/
+/-- Every member of one deployment restores the SAME checkpoint: the id the deciding task read (`dep.ck`, carried by
+every operator's Deploy request) is what the source splitter — and through it every source runner — is started from
+when the deployment succeeds, whatever happens in between (acknowledgements, a snapshot file being written and
+published, ticks, membership changes that do not decide a new deployment). -/
+theorem members_restore_same_checkpoint {s : St} (_hr : Reachable s) (a : Act) (dep : Dep)
+    (hd : (step s a).2.dep? = some dep) (acts : List Act)
+    (hq : ∀ o ∈ (run (step s a).1 acts).2, o.dep? = none)
+    (hst : (run (step s a).1 acts).1.status = .starting) :
+    ∃ st asg sp sr sb, (step (run (step s a).1 acts).1 .deployOk).2 = .started st dep.ck asg sp sr sb := by
+  have h1 : (step s a).1.startCk = dep.ck := (step_dep_ck (reachable_inv _hr) a dep hd).2.2
+  have h2 := run_startCk (step s a).1 acts hq
+  generalize (run (step s a).1 acts).1 = t at hst h2
+  have h3 : t.startCk = dep.ck := h2.trans h1
+  simp only [step, hst, ne_eq, not_true_eq_false, if_false, h3]
+  exact ⟨_, _, _, _, _, rfl⟩
+
+/-- the current checkpoint id never decreases (only the publication of a written snapshot changes it, and a newer one stays) -/
 theorem current_monotone {s : St} (hr : Reachable s) (a : Act) (c : Nat) (hc : s.store.current = some c) :
     ∃ c', (step s a).1.store.current = some c' ∧ c ≤ c' :=
-  step_current_mono (reachable_inv hr) a c hc
+  step_current_mono s a c hc
 
 /-- A failed start is retried in the same task, without any delay, whenever the registry still holds enough nodes
 with unexpired heartbeats — including nodes that halted without deregistering. (This is why a job can issue a burst
@@ -90,7 +110,7 @@ theorem no_stale_inflight {s : St} (hr : Reachable s) (h : s.status = .starting)
     (∀ i ∈ (step s .deployOk).1.asmOps,
       ((step s .deployOk).1.procs i).inflight = none ∧ ((step s .deployOk).1.procs i).deployed = true ∧
       ((step s .deployOk).1.procs i).srcs = (step s .deployOk).1.asmSrs) ∧
-    ∃ st, (step s .deployOk).2 = .started st s.store.current s.asmSrs false []
+    ∃ st, (step s .deployOk).2 = .started st s.startCk s.asmSrs false []
       (s.asmOps.filter fun i => !(s.procs i).batch.isEmpty) := by
   obtain ⟨a, b, c⟩ := deployOk_clean (reachable_inv hr) h
   exact ⟨a, fun i hi => ⟨(b i hi).1, (b i hi).2.1, (b i hi).2.2.1⟩, c⟩
@@ -130,7 +150,21 @@ theorem stale_batch_counterexample :
     ((run (init 2 5 0 2) staleBatchTrace).1.procs 0).batch = [(7, 1)] ∧
     ((run (init 2 5 0 2) staleBatchTrace).1.procs 0).epoch = 2 ∧
     (step (run (init 2 5 0 2) staleBatchTrace).1 (.ev 0 2 8)).2 = .processed [(7, 1), (8, 2)] 2 :=
-  ⟨⟨2, 5, 0, 2, staleBatchTrace, rfl⟩, by decide, by decide, by decide, by decide⟩
+  ⟨⟨2, 5, 0, 2, staleBatchTrace, by decide, rfl⟩, by decide, by decide, by decide, by decide⟩
+
+/-- "Surviving workers keep processing", operator side: right after a successful (re)deploy no operator of the assembly
+turns an event away or parks its sender — whatever was being aligned before is gone. (Source runners are not modelled:
+D39, D48.) -/
+theorem operators_accept_events_after_deploy {s : St} (hr : Reachable s) (h : s.status = .starting)
+    (i sr tag : Nat) (hi : i ∈ (step s .deployOk).1.asmOps) :
+    (step (step s .deployOk).1 (.ev i sr tag)).2 ≠ .barBlocked ∧
+    (step (step s .deployOk).1 (.ev i sr tag)).2 ≠ .barNotReady := by
+  obtain ⟨hin, hdep, _⟩ := (no_stale_inflight hr h).2.1 i hi
+  generalize (step s .deployOk).1 = s' at hin hdep
+  show (event s' i sr tag).2 ≠ .barBlocked ∧ (event s' i sr tag).2 ≠ .barNotReady
+  unfold event
+  simp only [hdep, hin, parked, Bool.not_true, Bool.false_eq_true, if_false]
+  split <;> simp
 
 /-- a pending snapshot always waits for the members of the job's current assembly -/
 theorem pending_belongs_to_assembly {s : St} (hr : Reachable s) (p : Pending) (hp : s.store.pending = some p) :
@@ -144,17 +178,77 @@ theorem record_within_sources {s : St} (hr : Reachable s) (i rid : Nat) (waiting
 
 /-! ## checkpointing resumes (bounded progress) -/
 
-/-- From any reachable Running state with no pending snapshot and no in-flight record at the assembly's operators
-(which `no_stale_inflight` guarantees after every (re)deploy), one round of the current assembly — the tick, the
-acknowledgement of every source runner, every source runner's barrier at every operator — publishes checkpoint
-`counter + 1`, and the job is again in such a state. -/
-theorem checkpoint_progress {s : St} (hr : Reachable s) (hrun : s.status = .running) (hp : s.store.pending = none)
+/-
+"After such a recovery new checkpoints complete again" as bounded progress would be
+
+    theorem checkpoint_progress (hr : Reachable s) (hrun : s.status = .running) (hp : s.store.pending = none) (hw : 0 < s.w) :
+        (run s (progressActs s)).1.store.current = some (s.store.counter + 1)
+
+That is FALSE for the code as it is (finding D56, `checkpoint_progress_counterexample`): `handleCheckpointBarrier`
+creates the alignment record from the first barrier it sees, whatever its id, and clears it only after an accepted
+acknowledgement. One barrier that is not the job's pending checkpoint (a runner loop of the previous deployment still
+running — D39/D48 —, a late delivery) leaves a record that every later barrier mismatches (and behind which its sender
+parks); nothing but the next redeploy removes it. `no_stale_inflight` gives the hypothesis `hrec` below only at the
+instant of the deploy; it is NOT stable under the stale messages `Reachable` allows. What is proved is the statement
+with the exact excluded condition: no operator of the assembly holds an alignment record when the round starts.
+-/
+
+/-- From any reachable Running state with no pending snapshot and — excluded condition, see above — no in-flight
+record at the assembly's operators, one round of the current assembly — the tick, the acknowledgement of every source
+runner, every source runner's barrier at every operator — publishes checkpoint `counter + 1`, and the job is again in
+such a state. -/
+theorem checkpoint_progress_partial {s : St} (hr : Reachable s) (hrun : s.status = .running) (hp : s.store.pending = none)
     (hrec : ∀ i ∈ s.asmOps, (s.procs i).inflight = none) (hw : 0 < s.w) :
     (run s (progressActs s)).1.store.current = some (s.store.counter + 1) ∧
     (run s (progressActs s)).1.store.pending = none ∧
     (run s (progressActs s)).1.status = .running ∧ (run s (progressActs s)).1.ticker = true ∧
     (∀ i ∈ s.asmOps, ((run s (progressActs s)).1.procs i).inflight = none) :=
   progress (reachable_inv hr) hrun hp hrec hw
+
+/-- the history of D56: right after a deployment one barrier of an older checkpoint (id 7) reaches operator 0 -/
+def wedgeTrace : List Act := [.regO 0, .regS 1, .deployOk, .bar 0 1 7]
+
+/-- D56: in a reachable Running state with no pending snapshot a stale barrier has left a completed, refused record
+at the assembly's operator; the round of the current assembly publishes nothing, the next tick answers `retry`, and a
+second delivery of the whole round changes nothing: checkpointing does not resume. -/
+theorem checkpoint_progress_counterexample :
+    Reachable (run (init 1 5 0) wedgeTrace).1 ∧
+    (run (init 1 5 0) wedgeTrace).1.status = .running ∧ (run (init 1 5 0) wedgeTrace).1.store.pending = none ∧
+    ((run (init 1 5 0) wedgeTrace).1.procs 0).inflight = some (7, []) ∧
+    (run (run (init 1 5 0) wedgeTrace).1 (progressActs (run (init 1 5 0) wedgeTrace).1)).1.store.current = none ∧
+    (run (init 1 5 0) (wedgeTrace ++ [.tick, .ackS 1 1, .bar 0 1 1, .tick, .bar 0 1 1])).2.drop 4 =
+      [.ckpt 1 [1], .ack (.ok none), .barMismatch, .retry, .barMismatch] ∧
+    ((run (init 1 5 0) (wedgeTrace ++ [.tick, .ackS 1 1, .bar 0 1 1, .tick, .bar 0 1 1])).1.procs 0).inflight = some (7, []) :=
+  ⟨⟨1, 5, 0, 3, wedgeTrace, by decide, rfl⟩, by decide, by decide, by decide, by decide, by decide, by decide⟩
+
+/-! ## the ticker callback is not a task (finding D57) -/
+
+/-- `.tick` is the ticker callback run without interruption: its three pieces back to back -/
+theorem tick_is_uninterrupted_callback (s : St) (h : s.tk = none) :
+    (run s [.tickA, .tickB, .tickC]).1 = (step s .tick).1 :=
+  tick_split s h
+
+/-- the history of D57: operator 1 deregisters and operator 4 takes its place while a ticker callback is between
+reading `j.assembly` and `CreateCheckpoint` -/
+def tickRaceTrace : List Act :=
+  [.regO 0, .regO 1, .regS 2, .regS 3, .deployOk, .tickA, .deregO 1, .regO 4, .tickB, .tickC, .deployOk]
+
+/-- D57: every theorem above is about schedules in which a ticker callback runs as one step (`Reachable`). The code
+does not enforce that: the callback runs on the clock's goroutine and reads `j.assembly` three times without
+synchronisation. If a pause and a new assembly fall inside it, the job ends up Running on assembly {0,4} with a pending
+snapshot that waits for operator 1 of the PREVIOUS assembly — created after the new deployment's
+`RegisterSourceSplitter` cleared the store — so `pending_belongs_to_assembly` and `start_uses_latest` fail, every
+later tick answers `retry`, and no checkpoint completes until the next redeploy. -/
+theorem tick_interleaving_counterexample :
+    ReachableAny (run (init 2 5 0) tickRaceTrace).1 ∧
+    (run (init 2 5 0) tickRaceTrace).1.status = .running ∧
+    (run (init 2 5 0) tickRaceTrace).1.asmOps = [0, 4] ∧
+    (run (init 2 5 0) tickRaceTrace).1.store.pending =
+      some { id := 1, expOps := [0, 1], expSrs := [2, 3], waitOps := [0, 1], waitSrs := [2, 3] } ∧
+    (step (run (init 2 5 0) tickRaceTrace).1 .tick).2 = .retry ∧
+    (run (run (init 2 5 0) tickRaceTrace).1
+      [.ackS 2 1, .ackS 3 1, .bar 0 2 1, .bar 0 3 1, .bar 4 2 1, .bar 4 3 1, .tick]).1.store.current = none :=
+  ⟨⟨2, 5, 0, 3, tickRaceTrace, rfl⟩, by decide, by decide, by decide, by decide, by decide⟩
 
 /-! ## non-vacuity -/
 
@@ -181,8 +275,18 @@ example : (run (init 2 5 0) witness).1.status = .starting ∧
     ((run (init 2 5 0) witness).1.procs 0).inflight = some (1, [3]) := by decide
 
 /-- a redeploy after a published checkpoint carries that checkpoint -/
-example : (step (run (init 1 5 0) [.regO 0, .regS 1, .deployOk, .tick, .ackS 1 1, .bar 0 1 1, .deregS 1]).1 (.regS 2)).2.dep?
+example : (step (run (init 1 5 0) [.regO 0, .regS 1, .deployOk, .tick, .ackS 1 1, .bar 0 1 1, .publish 1, .deregS 1]).1 (.regS 2)).2.dep?
     = some ⟨[0], [2], some 1⟩ := by decide
+
+/-- a snapshot completed just before the loss of runner 1 is published while the new deployment is in flight: the
+deployment was decided with checkpoint `none` and the splitter is started from `none` too (`members_restore_same_checkpoint`
+with a non-trivial middle part), although the store's current checkpoint is 1 by then -/
+example : (step (run (init 1 5 0) [.regO 0, .regS 1, .deployOk, .tick, .ackS 1 1, .bar 0 1 1, .deregS 1]).1 (.regS 2)).2.dep?
+      = some ⟨[0], [2], none⟩ ∧
+    (run (init 1 5 0) [.regO 0, .regS 1, .deployOk, .tick, .ackS 1 1, .bar 0 1 1, .deregS 1, .regS 2, .publish 1]).1.store.current
+      = some 1 ∧
+    (run (init 1 5 0) [.regO 0, .regS 1, .deployOk, .tick, .ackS 1 1, .bar 0 1 1, .deregS 1, .regS 2, .publish 1, .deployOk]).2.getLast?
+      = some (.started .running none [2] false [] []) := by decide
 
 /-- the hypotheses of `checkpoint_progress` hold after the recovery of the witness, and the round publishes
 checkpoint 2 -/
